@@ -30,6 +30,7 @@ type schedState struct {
 	preemptLeft int
 	autoFires   int
 	lastSwitch  int64
+	blockChoice bool
 	choices     []int
 }
 
@@ -158,8 +159,16 @@ func (ex *Exec) pickNext(self *goroutine) *goroutine {
 			cands = append(cands, self)
 		}
 		if len(cands) > 0 {
-			if len(cands) > 1 && ex.sched.explore {
+			if len(cands) > 1 && ex.sched.explore && ex.sched.blockChoice {
 				return cands[ex.choose(len(cands), "sched")]
+			}
+			// deterministic: round-robin after the goroutine that gives up the CPU
+			if self != nil {
+				for _, c := range cands {
+					if c.id > self.id {
+						return c
+					}
+				}
 			}
 			return cands[0]
 		}
